@@ -283,6 +283,44 @@ impl Write for InterruptingWriter {
     }
 }
 
+/// Accepts everything up to byte offset `fail_at` (splitting the buffer that
+/// crosses it, at most `max` bytes per call), returns one transient error
+/// (WouldBlock) there, and accepts everything afterwards.
+pub struct FailOnceWriter {
+    pub out: Vec<u8>,
+    fail_at: usize,
+    max: usize,
+    pub failed: bool,
+}
+
+impl FailOnceWriter {
+    pub fn new(fail_at: usize, max: usize) -> Self {
+        FailOnceWriter { out: Vec::new(), fail_at, max: max.max(1), failed: false }
+    }
+}
+
+impl Write for FailOnceWriter {
+    fn write(&mut self, buf: &[u8]) -> io::Result<usize> {
+        if buf.is_empty() {
+            return Ok(0);
+        }
+        let mut n = buf.len().min(self.max);
+        if !self.failed {
+            let room = self.fail_at - self.out.len();
+            if room == 0 {
+                self.failed = true;
+                return Err(io::Error::new(io::ErrorKind::WouldBlock, MARKER));
+            }
+            n = n.min(room);
+        }
+        self.out.extend_from_slice(&buf[..n]);
+        Ok(n)
+    }
+    fn flush(&mut self) -> io::Result<()> {
+        Ok(())
+    }
+}
+
 /// fmt::Write sink that fails once `limit` bytes have been accepted.
 pub struct FailingFmt {
     pub out: String,
